@@ -315,10 +315,16 @@ class SlavePort(core_ports.BasePort):
 
     async def read_value(self) -> NullablePortValue:
         try:
-            self._cached_value = self._remote_value_queue.pop()
-            return self._cached_value
+            value = self._remote_value_queue.pop()
         except IndexError:
             raise core_ports.SkipRead()
+
+        # A value written while the device is offline is kept in `_cached_value` until it is provisioned; remote values
+        # that were still queued at that moment are reported but must not replace it
+        if 'value' not in self._provisioning:
+            self._cached_value = value
+
+        return value
 
     async def write_value(self, value: NullablePortValue) -> None:
         if self._slave.is_online():
